@@ -19,6 +19,10 @@
     sdp.go             addTransceiverSDP      — the direction attribute is `transceiver.Direction()`
     signalingstate.go  checkNextSignalingState — only the stable / have-local-offer / have-remote-offer part
 
+  Also mirrored (other agents' fix commits): a remote m-section without a direction attribute counts as
+  sendrecv (`effDir`); CreateOffer raises greaterMid from every description and transceiver before numbering;
+  SetRemoteDescription rejects a description without ICE credentials before applying it.
+
   Not modelled (parameters of the tie): codecs (every kind has codecs, so no section is rejected), ICE, DTLS,
   data channels, Plan-B.  Mids are the decimal numbers pion allocates (`Nat`).
 -/
@@ -205,17 +209,19 @@ def satisfy (adj : Dir → Dir → Dir) (k : Kind) (m : Nat) (d : Dir) : List Di
     | some (_, w') => some w'
     | none => satisfy adj k m d pds w
 
+/-- `getPeerDirection` of a remote m-section as SetRemoteDescription and generateMatchedSDP use it (since
+    `fix: treat a remote m-section without a direction attribute as sendrecv`): sendrecv is the default. -/
+def effDir (d : Option Dir) : Dir := d.getD .sendrecv
+
 /-- one iteration of the m-section loop of SetRemoteDescription (remote offer, Unified Plan) -/
 def srdSection (adj : Dir → Dir → Dir) (w : Work) (s : Sec) : Work :=
-  match s.dir with
-  | none => w                                  -- `direction == Unknown` ⇒ continue
-  | some d =>
-    match pluck (hasMid s.mid) (applyByMid adj d) w with
-    | some (_, w') => w'
-    | none =>
-      match satisfy adj s.kind s.mid d (preferred d) w with
-      | some w' => w'
-      | none => w ++ [(newFromRemote s.mid s.kind d, false)]   -- addRTPTransceiver appends
+  let d := effDir s.dir
+  match pluck (hasMid s.mid) (applyByMid adj d) w with
+  | some (_, w') => w'
+  | none =>
+    match satisfy adj s.kind s.mid d (preferred d) w with
+    | some w' => w'
+    | none => w ++ [(newFromRemote s.mid s.kind d, false)]   -- addRTPTransceiver appends
 
 def srdLoop (adj : Dir → Dir → Dir) (w : Work) (secs : List Sec) : Work := secs.foldl (srdSection adj) w
 
@@ -260,36 +266,39 @@ def narrowTr (nar : Option (Dir → Dir → Dir)) (d : Dir) (t : Tr) : Tr :=
   | some f => { t with dir := f d t.dir }
 
 /-- The m-section loop of `generateMatchedSDP` over the remote description: a section without direction
-    attribute is skipped (dropped from the result), a section whose mid matches no remaining transceiver
+    attribute counts as sendrecv, a section whose mid matches no remaining transceiver
     is an error (`errPeerConnTranscieverMidNil`: result `none`; transceivers narrowed before the error stay
     narrowed).  Returns the sections and the working list. -/
 def matchedLoop (nar : Option (Dir → Dir → Dir)) : Work → List Sec → Option (List Sec) × Work
   | w, [] => (some [], w)
   | w, s :: rest =>
-    match s.dir with
-    | none => matchedLoop nar w rest
-    | some d =>
-      match pluck (hasMid s.mid) (narrowTr nar d) w with
-      | none => (none, w)
-      | some (t, w') =>
-        let r := matchedLoop nar w' rest
-        (r.1.map (secOf s.mid (narrowTr nar d t) :: ·), r.2)
+    match pluck (hasMid s.mid) (narrowTr nar (effDir s.dir)) w with
+    | none => (none, w)
+    | some (t, w') =>
+      let r := matchedLoop nar w' rest
+      (r.1.map (secOf s.mid (narrowTr nar (effDir s.dir) t) :: ·), r.2)
 
 /-- `includeUnmatched`: the transceivers still in the local slice, in order (all have a mid by then) -/
 def unmatchedSecs (w : Work) : List Sec :=
   w.filterMap (fun (t, av) => if av then some (secOf (t.mid.getD 0) t) else none)
 
-/-- the `greaterMid` loop of CreateOffer; `next` = greaterMid + 1 -/
+/-- the numbering loop of CreateOffer (`greaterMid++; SetMid`); `next` = greaterMid + 1.  Since
+    `fix: number new mids above every mid in use` greaterMid has been raised from every description and every
+    transceiver before this loop runs. -/
 def assignMids : Nat → List Tr → Nat × List Tr
   | next, [] => (next, [])
   | next, t :: rest =>
     match t.mid with
-    | some m =>
-      let r := assignMids (max next (m + 1)) rest
+    | some _ =>
+      let r := assignMids next rest
       (r.1, t :: r.2)
     | none =>
       let r := assignMids (next + 1) rest
       (r.1, { t with mid := some next } :: r.2)
+
+/-- `updateGreaterMid` over all transceivers -/
+def scanTrMids (next : Nat) (ts : List Tr) : Nat :=
+  ts.foldl (fun n t => match t.mid with | some m => max n (m + 1) | none => n) next
 
 def scanMids (next : Nat) (secs : List Sec) : Nat := secs.foldl (fun n s => max n (s.mid + 1)) next
 
@@ -416,10 +425,9 @@ def stepWith (adj nar : Dir → Dir → Dir) (s : Pc) : Op → Pc × Res
       else (s, .err)
   | .localOffer =>
     if s.sig = .stable then
-      let next0 := match s.curRemote with
-        | some rs => scanMids s.nextMid rs
-        | none => s.nextMid
-      let r := assignMids next0 s.trs
+      -- the local descriptions are scanned too; their mids are mids of transceivers (no data channels here)
+      let next0 := scanMids (scanMids s.nextMid (s.curRemote.getD [])) (s.pendRemote.getD [])
+      let r := assignMids (scanTrMids next0 s.trs) s.trs
       let s1 := { s with nextMid := r.1, trs := r.2 }
       match offerSecs s.curRemote r.2 with
       | none => (s1, .err)
